@@ -216,7 +216,7 @@ func c14Receiver(rc *RunCtx) *Violation {
 		// does not complete a message must not make the party process anything
 		if refotr.IsFragment(r.In) {
 			complete := false
-			if fi, err := refotr.ParseFragment(r.In); err == nil && fi.V3 == (rc.Cfg["version"] != 2) {
+			if fi, err := refotr.ParseFragmentLenient(r.In); err == nil && fi.V3 == (rc.Cfg["version"] != 2) {
 				if !fi.V3 || (fi.SenderTag == rc.Parties[0].Tag && (fi.ReceiverTag == 0 || fi.ReceiverTag == rc.Parties[1].Tag)) {
 					complete = model.Add(fi.K, fi.N, fi.Piece) != nil
 				}
